@@ -496,16 +496,21 @@ class Py2Cpp(ITranspiler):
 		# 期待値1: 'range(size)'
 		# 期待値2: 'range(begin, size)'
 		# 期待値3: 'range(begin, size, step)'
-		args_num = len(node.iterates.as_a(defs.FuncCall).arguments)
+		arguments = node.iterates.as_a(defs.FuncCall).arguments
+		args_num = len(arguments)
 		join_args = PatternParser.pluck_func_call_arguments(for_in)
+		# XXX 上限値は`i < {size}`の右辺に展開されるため、比較演算子より優先度が低い演算(ビット演算/論理演算/比較/3項演算)は括弧で保護
+		loose_types = (defs.OrCompare, defs.AndCompare, defs.Comparison, defs.OrBitwise, defs.XorBitwise, defs.AndBitwise, defs.TernaryOperator)
+		size_node = arguments[0].value if args_num == 1 else arguments[1].value
+		to_size: Callable[[str], str] = lambda size: f'({size})' if isinstance(size_node, loose_types) else size
 		if args_num == 1:
-			return self.render(node, f'flow/{node.classification}/range', vars={'symbol': symbols[0], 'begin': 0, 'size': join_args, 'step': 1, 'statements': statements})
+			return self.render(node, f'flow/{node.classification}/range', vars={'symbol': symbols[0], 'begin': 0, 'size': to_size(join_args), 'step': 1, 'statements': statements})
 		elif args_num == 2:
 			begin, size = BlockParser.break_separator(join_args, ',')
-			return self.render(node, f'flow/{node.classification}/range', vars={'symbol': symbols[0], 'begin': begin, 'size': size, 'step': 1, 'statements': statements})
+			return self.render(node, f'flow/{node.classification}/range', vars={'symbol': symbols[0], 'begin': begin, 'size': to_size(size), 'step': 1, 'statements': statements})
 		else:
 			begin, size, step = BlockParser.break_separator(join_args, ',')
-			return self.render(node, f'flow/{node.classification}/range', vars={'symbol': symbols[0], 'begin': begin, 'size': size, 'step': step, 'statements': statements})
+			return self.render(node, f'flow/{node.classification}/range', vars={'symbol': symbols[0], 'begin': begin, 'size': to_size(size), 'step': step, 'statements': statements})
 
 	def proc_for_enumerate(self, node: defs.For, symbols: list[str], for_in: str, statements: list[str]) -> str:
 		# 期待値: 'enumerate(arguments...)'
